@@ -250,6 +250,35 @@ def handle (st : DState) (req : Sexp) : Except String (DState × Sexp) :=
   | .list [.atom "tdNames", hint, t] => do
       let ns := Render.tdNames (← strOf hint) (← tyOf t)
       .ok (st, .list [.list (ns.map (fun n => .str n)), sexpOfBool (Render.hasNameCollision ns)])
+  | .list [.atom "removeStmts", .list moved, .list stmts] => do
+      let opt (y : Sexp) : Except String (Option String) := match y with | .atom "none" => .ok none | y => (strOf y).map some
+      let itemOf (x : Sexp) : Except String Imports.Item := match x with
+        | .list [m, o, a] => do .ok { module := ← strOf m, obj := ← opt o, alias := ← opt a }
+        | _ => .error "bad import item"
+      let nameOf (x : Sexp) : Except String Imports.ImpName := match x with
+        | .list [n, a] => do .ok { name := ← strOf n, asname := ← opt a }
+        | _ => .error "bad import name"
+      let rec stmtOf (fuel : Nat) (x : Sexp) : Except String Imports.Stmt := match fuel with
+        | 0 => .error "statement tree too deep"
+        | fuel + 1 => match x with
+          | .list (.atom "importMod" :: ns) => do .ok (.importMod (← ns.mapM nameOf))
+          | .list (.atom "importFrom" :: m :: ns) => do .ok (.importFrom (← strOf m) (← ns.mapM nameOf))
+          | .list [.atom "importStar", m] => do .ok (.importStar (← strOf m))
+          | .list [.atom "other", i] => do .ok (.other (← natOf i))
+          | .list (.atom "block" :: i :: body) => do .ok (.block (← natOf i) (← body.mapM (stmtOf fuel)))
+          | _ => .error "bad statement"
+      let so (o : Option String) : Sexp := match o with | none => .atom "none" | some s => .str s
+      let sn (n : Imports.ImpName) : Sexp := .list [.str n.name, so n.asname]
+      let rec sexpOfStmt (fuel : Nat) (st : Imports.Stmt) : Sexp := match fuel with
+        | 0 => .atom "too-deep"
+        | fuel + 1 => match st with
+          | .importMod ns => .list (.atom "importMod" :: ns.map sn)
+          | .importFrom m ns => .list (.atom "importFrom" :: .str m :: ns.map sn)
+          | .importStar m => .list [.atom "importStar", .str m]
+          | .other i => .list [.atom "other", .atom (toString i)]
+          | .block i body => .list (.atom "block" :: .atom (toString i) :: body.map (sexpOfStmt fuel))
+      let out := Imports.removeStmts (← moved.mapM itemOf) (← stmts.mapM (stmtOf 64))
+      .ok (st, .list (out.map (sexpOfStmt 64)))
   | .list [.atom "movable", .list stub, .list src, .list stars] => do
       let itemOf (x : Sexp) : Except String Imports.Item := match x with
         | .list [m, o, a] => do
